@@ -304,6 +304,9 @@ func (o *Obs) onReceivedQuery(d *gkDeco, descs []partDesc, n int) {
 	o.lock()
 	o.queries = append(o.queries, &recvQueryObs{Step: o.s.step, Inc: d.n.inc, Parts: descs, N: n})
 	o.unlock()
+	for _, p := range descs {
+		o.s.noteAsked(p.Name)
+	}
 	o.s.stat("gk:received?")
 	o.s.observe("received? %d/%d", n, len(descs))
 	o.s.checkReceivedQuery(d, descs, n)
@@ -313,6 +316,7 @@ func (o *Obs) onStatus(d *gkDeco, name string, sent time.Time, code int) {
 	o.lock()
 	o.status = append(o.status, &statusObs{Step: o.s.step, Inc: d.n.inc, Name: name, Code: code})
 	o.unlock()
+	o.s.noteAsked(name)
 	o.s.stat(fmt.Sprintf("status:%d", code))
 	o.s.observe("status %s=%d", name, code)
 	o.s.checkStatusAnswer(d, name, code)
